@@ -135,11 +135,16 @@ def apply_op(mesh, dom, op):
         except Exception:
             obs["ret_has_edge"] = False
         try:
-            v0 = mesh.vertex_from_coords(conv(p0) if form != "array" else (float(p0[0]), float(p0[1])))
-            v1 = mesh.vertex_from_coords(conv(p1) if form != "array" else (float(p1[0]), float(p1[1])))
+            # end points are looked up in the same form they were passed in (InitialOperator.linform
+            # passes the 2x1 arrays returned by the curve parametrisation)
+            v0 = mesh.vertex_from_coords(conv(p0))
+            v1 = mesh.vertex_from_coords(conv(p1))
             obs["endpoints_found"] = v0 is not None and v1 is not None
         except AssertionError:
             obs["endpoints_found"] = False
+        except TypeError as ex:
+            obs["endpoints_found"] = False
+            obs["lookup_exc"] = "TypeError in vertex_from_coords (%s end points)" % form
         return obs
     raise ValueError(kind)
 
